@@ -37,4 +37,17 @@ theorem segCount_covers_rat (factor : Nat) (dist L : ℚ) (hf : 1 ≤ factor) (h
   calc dist ≤ (⌈dist / L⌉₊ : ℚ) * L := h2
     _ ≤ ((factor * ⌈dist / L⌉₊ : Nat) : ℚ) * L := mul_le_mul_of_nonneg_right h3 hL.le
 
+/-- the ceiling is tight: one segment fewer (per unit factor) would leave a step longer than `L`. -/
+theorem segCount_tight_rat (dist L : ℚ) (hd : 0 < dist) (hL : 0 < L) :
+    ((segCount 1 dist L : Nat) : ℚ) * L < dist + L := by
+  unfold segCount
+  show ((1 * ⌈dist / L⌉₊ : Nat) : ℚ) * L < dist + L
+  have h0 : (0 : ℚ) ≤ dist / L := (div_pos hd hL).le
+  have h1 : (⌈dist / L⌉₊ : ℚ) < dist / L + 1 := Nat.ceil_lt_add_one h0
+  have h2 : (⌈dist / L⌉₊ : ℚ) * L < (dist / L + 1) * L := mul_lt_mul_of_pos_right h1 hL
+  have h3 : (dist / L + 1) * L = dist + L := by
+    field_simp
+  rw [Nat.one_mul]
+  linarith
+
 end OmplModel.Motion
